@@ -7,7 +7,7 @@ for f in sorted(glob.glob(os.path.join(HERE, "seeded", "*", "meta.json"))):
     m = json.load(open(f))
     d = m["detection"]
     first = d.get("first_pass")
-    fp = "" if first is None else ("yes" if first.get("own_property_check_fires") else ("other check only" if first.get("checks_firing") else "**missed**"))
+    fp = "" if first is None else ("yes" if first.get("own_property_check_fires") else ("other check only" if first.get("checks_firing") else ("undecided (exit 2)" if first.get("checks_undecided") else "**missed**")))
     what = m.get("one_line", "")
     rows.append(f"| {m['id']} | {', '.join(os.path.basename(x) for x in m['files_changed'])} | {what} | "
                 f"{'yes' if d['own_property_check_fires'] else 'NO'} | {', '.join(d['rules_reporting'][:5])} | {', '.join(c for c in d['checks_firing'] if c != m['breaks_property'])} | {fp} |")
